@@ -108,7 +108,8 @@ class System:
                 self.insts[a["i"] - 1].param[a["n"]]
             elif n == "classset":
                 cls = self.classes[a["c"]]
-                setattr(cls, a["n"], float(getattr(cls, a["n"])) if a["v"]["t"] == "badeq" else self.val(a["v"]))
+                setattr(cls, a["n"], float(getattr(cls, a["n"])) if a["v"]["t"] == "badeq" else
+                        getattr(cls, a["n"]) if a["v"]["t"] == "same" else self.val(a["v"]))
             elif n == "addparam":
                 newp = param.Integer(self.val(a["v"]), bounds=(0, 5), allow_None=True)
                 if a.get("route", "add") == "add":
